@@ -25,6 +25,9 @@ use std::alloc::Layout;
 use std::cell::UnsafeCell;
 use std::fmt::Debug;
 use std::mem::MaybeUninit;
+#[cfg(nucleo_verif)]
+use crate::verif::atomic::{AtomicBool, AtomicPtr, AtomicU64, Ordering};
+#[cfg(not(nucleo_verif))]
 use std::sync::atomic::{AtomicBool, AtomicPtr, AtomicU64, Ordering};
 use std::{ptr, slice};
 
